@@ -100,6 +100,8 @@ func (s *Subscription) delete(ctx context.Context) error {
 	switch {
 	case err != nil:
 		return err
+	case len(res.Results) == 0:
+		return ua.StatusBadUnexpectedError
 	case res.Results[0] == ua.StatusOK:
 		s.itemsMu.Lock()
 		s.items = make(map[uint32]*monitoredItem)
@@ -162,6 +164,10 @@ func (s *Subscription) Monitor(ctx context.Context, ts ua.TimestampsToReturn, it
 
 	if err != nil {
 		return nil, err
+	}
+	if len(res.Results) != len(items) {
+		// the server must return one result per item to create
+		return nil, ua.StatusBadUnexpectedError
 	}
 
 	// store monitored items
@@ -238,6 +244,10 @@ func (s *Subscription) ModifyMonitoredItems(ctx context.Context, ts ua.Timestamp
 	})
 	if err != nil {
 		return nil, err
+	}
+	if len(res.Results) != len(items) {
+		// the server must return one result per item to modify
+		return nil, ua.StatusBadUnexpectedError
 	}
 
 	// update monitored items
@@ -481,6 +491,10 @@ func (s *Subscription) recreate_monitoredItems(ctx context.Context) error {
 			return err
 		}
 
+		if len(res.Results) != len(items) {
+			// the server must return one result per item to create
+			return ua.StatusBadUnexpectedError
+		}
 		for _, result := range res.Results {
 			if status := result.StatusCode; status != ua.StatusOK {
 				return status
